@@ -185,8 +185,14 @@ class BitEval:
     
 
     def eval(self, e, env, ir, depth=0):
+        """env: {arg index: value}; env["leaf"] (optional) maps a sub-expression to a value before it is evaluated structurally"""
         if depth > 40:
             raise Unsupported("too deep")
+        leaf = env.get("leaf") if isinstance(env, dict) else None
+        if leaf is not None:
+            r = leaf(e)
+            if r is not None:
+                return r
         k = e[0]
         if k == "c":
             w = WIDTH.get(e[2])
@@ -250,6 +256,8 @@ class BitEval:
                 cir = self.ir(f)
                 re_, rb = self.ret_expr(f)
                 cenv = {}
+                if leaf is not None:
+                    pass
                 for i, a in enumerate(e[2]):
                     try:
                         cenv[i] = self.eval(a, env, ir, depth + 1)
